@@ -20,6 +20,8 @@ type BoundaryCase struct {
 	Rest []int `json:"rest,omitempty"`
 	// OnlyK restricts the enumeration (replay); -1 = all splits.
 	OnlyK int `json:"only_k"`
+	// EOFWith: the transport returns its last bytes together with io.EOF.
+	EOFWith bool `json:"eof_with,omitempty"`
 }
 
 func genBoundaryCase(t *rapid.T) BoundaryCase {
@@ -41,6 +43,7 @@ func genBoundaryCase(t *rapid.T) BoundaryCase {
 		}
 	}
 	c.Rest = genChunks(t, "rest", 300)
+	c.EOFWith = rapid.Bool().Draw(t, "eof_with_last_bytes")
 	c.OnlyK = -1
 	return c
 }
@@ -94,6 +97,7 @@ func checkC17(c BoundaryCase, o *Obs) error {
 			first = false
 			tr := xport.NewScriptConn(model.Wire, append([]int{k}, c.Rest...))
 			tr.NoLog = true
+			tr.EOFWithData = c.EOFWith && k < len(model.Wire)
 			br := bufio.NewReaderSize(tr, h)
 			if k > 0 {
 				if _, err := br.Peek(1); err != nil {
